@@ -976,7 +976,21 @@ func (e *SpecEnv) call(x *ast.CallExpr) T {
 				t := e.resolveType(x.Args[1])
 				return boolT(g.implements(v.S, t))
 			case "held":
-				return boolT("true") // lock-set facts are checked structurally (see exec)
+				// held(x.m): the mutex field m of x is in the symbolic lock set of the current state
+				// (syntactic: the same object term as at the Lock call)
+				sel, ok := x.Args[0].(*ast.SelectorExpr)
+				if !ok {
+					specFail("held(x.m) expects a field selector")
+				}
+				base := e.eval(sel.X)
+				l := e.fieldLocOf(base, sel.Sel.Name)
+				if l == nil {
+					specFail("held(%s): not a field", exprString(x.Args[0]))
+				}
+				if e.cur != nil && e.cur.held[l.arr+"@"+l.ref] {
+					return boolT("true")
+				}
+				return boolT("false")
 			}
 			// predicate or spec function
 			if p := e.findPred(id.Name); p != nil {
